@@ -85,7 +85,7 @@ Section Fix.
         - (* major: same cursor, fewer upper tables *)
           injection Hc as <- <-. apply N.ltb_lt in E2.
           assert (Hup : exists l, In l (removelast ll) /\ l <> []).
-          { apply eligible_pos. unfold pct in E2. destruct (eligible tsize ll =? 0) eqn:E0; [lia|]. apply N.eqb_neq in E0. lia. }
+          { apply (eligible_pos tsize). unfold pct in E2. destruct (eligible tsize ll =? 0) eqn:E0; [lia|]. apply N.eqb_neq in E0. lia. }
           pose proof (major_decreases ll (conj Hv (conj Hlen Hne)) Hup) as Hdec.
           eapply (IHu (upper_count (apply_cs (major tsize cfg ll) ll))); [lia|exact Hv2|rewrite Hlen'; exact Hp|reflexivity].
         - (* minor: the cursor advances *)
@@ -99,3 +99,8 @@ Section Fix.
     - exists 1%nat, ll, m. cbn [compact_loop]. rewrite Hc. auto.
   Qed.
 End Fix.
+
+Theorem compact_fixpoint_thm tsize cfg mcl ll :
+  good_cfg cfg -> valid ll ->
+  exists fuel ll' mcl', compact_loop tsize fuel cfg mcl ll = Some (ll', mcl') /\ valid ll' /\ view ll' = view ll.
+Proof. intros H1 H2. exact (compact_fixpoint_proof tsize cfg H1 mcl ll H2). Qed.
